@@ -177,7 +177,7 @@ def run_family(binary, work, items, jobs=None, batch=6, meaning_needed=True, log
             findings.append(Finding(prop='C05', rule='goroutine-left-after-return', detail=leak_site(lk), item=i, where=r['dir']))
         wfs = {'workflow.yaml': it['wf']}
         wfs.update(it.get('subwfs', {}))
-        cs = cases_from_result(r, wfs, [it['input']])
+        cs = cases_from_result(r, wfs, it.get('inputs') or [it['input']])
         for c in cs:
             if res.get('watchdog'):
                 c['noreturn'] = True
@@ -190,14 +190,19 @@ def run_family(binary, work, items, jobs=None, batch=6, meaning_needed=True, log
         elif mres is not None and it.get('_m') is not None:
             want = mres[it['_m']]['results']
         if want is not None and not res.get('watchdog') and res.get('runs'):
-            got = engine_outcome(res['runs'][0])
             it['_want'] = sorted(want)
-            it['_got'] = got
-            if 'hung' not in want and got not in want and not it.get('cancel'):
-                prop = 'C03'
-                findings.append(Finding(prop=prop, rule='result-differs-from-declarative-meaning',
-                                        detail='got %s want %s%s' % (got, sorted(want), (' err=' + res['runs'][0].get('err', '')[:160]) if got == 'error' else ''),
-                                        item=i, where=r['dir']))
+            it['_got'] = engine_outcome(res['runs'][0])
+            for ri, rr in enumerate(res['runs']):
+                w = want
+                if ri in (it.get('want_override') or {}):
+                    w = set(it['want_override'][ri])
+                got = engine_outcome(rr)
+                cancelled = rr.get('cancel_ms', -1) >= 0
+                if 'hung' not in w and got not in w and not it.get('cancel') and not cancelled:
+                    findings.append(Finding(prop='C03', rule='result-differs-from-declarative-meaning',
+                                            detail='%sgot %s want %s%s' % ('run %d: ' % ri if len(res['runs']) > 1 else '', got, sorted(w),
+                                                                           (' err=' + rr.get('err', '')[:160]) if got == 'error' else ''),
+                                            item=i, where=r['dir']))
     stats['traces'] = len(allcases)
     stats['events'] = sum(len(c['events']) for c in allcases)
     # 4. validate
